@@ -79,9 +79,23 @@ func commChoice(rng *Rng) sdk.Dec {
 	}
 }
 
+// prefixIds: external ids on ethereum/bsc where one id is a prefix of another (not valid hex
+// addresses: reachable only through a governance listing of such ids)
+var prefixIds = false
+
+// directed: boundary-directed stream (prefix-related ids on one chain, many batches, out-of-order executions)
+var directed = false
+
 func genTokens(rng *Rng) []*types.TokenInfo {
+	prefixIds = rng.Chance(1, 5) || directed
 	denoms := []string{"hub", "usdx", "eth"}
 	nd := 1 + rng.Intn(3)
+	if prefixIds && nd < 2 {
+		nd = 2
+	}
+	if directed {
+		nd = 3
+	}
 	var out []*types.TokenInfo
 	id := uint64(1)
 	perm := []int{0, 1, 2, 3, 4, 5, 6}
@@ -91,7 +105,7 @@ func genTokens(rng *Rng) []*types.TokenInfo {
 	}
 	for d := 0; d < nd; d++ {
 		for _, ch := range []string{"minter", "ethereum", "bsc"} {
-			if ch != "minter" && rng.Chance(1, 4) {
+			if ch != "minter" && !prefixIds && rng.Chance(1, 4) {
 				continue
 			}
 			ext := ""
@@ -99,6 +113,9 @@ func genTokens(rng *Rng) []*types.TokenInfo {
 				ext = minterIds[perm[d]]
 			} else {
 				ext = ethAddrOf(byte(0xc0+16*d), len(ch))
+				if prefixIds {
+					ext = ethAddrOf(0xc0, len(ch))[:10+16*d]
+				}
 			}
 			out = append(out, &types.TokenInfo{Id: id, Denom: denoms[d], ChainId: ch, ExternalTokenId: ext,
 				ExternalDecimals: decChoices[rng.Intn(len(decChoices))], Commission: commChoice(rng)})
@@ -110,7 +127,7 @@ func genTokens(rng *Rng) []*types.TokenInfo {
 
 type HubStats map[string]int
 
-func runHubCase(seed uint64, nOps int, hostile bool, stats HubStats) (V, V) {
+func runHubCase(seed uint64, nOps int, hostile bool, gov bool, stats HubStats) (V, V) {
 	rng := &Rng{s: seed}
 	tokens := genTokens(rng)
 	params := DefaultTestParams(allChains)
@@ -268,7 +285,7 @@ func runHubCase(seed uint64, nOps int, hostile bool, stats HubStats) (V, V) {
 			}
 			ev := &HubEvent{Kind: 1, Nonce: n, Coin: coin, Amount: amt, Sender: ethAddrOf(0xe0, rng.Intn(3)),
 				Receiver: userAddr(rng.Intn(3)).String(), Height: h, TxHash: fmt.Sprintf("0xdep%s%d", ch, n)}
-			if err := ev.toExternal().Validate(types.ChainID(ch)); err != nil {
+			if err := ev.toExternal().Validate(types.ChainID(ch)); err != nil && !prefixIds {
 				run.nextNonce[ch]--
 				stats["event_rejected_by_validate"]++
 				continue
@@ -304,7 +321,7 @@ func runHubCase(seed uint64, nOps int, hostile bool, stats HubStats) (V, V) {
 			}
 			ev := &HubEvent{Kind: 2, Nonce: n, Coin: t.ExternalTokenId, Amount: amt, Fee: fee, Sender: ethAddrOf(0xe0, rng.Intn(3)),
 				RChain: rch, Receiver: recv, Height: h, TxHash: fmt.Sprintf("0xttc%s%d", ch, n)}
-			if err := ev.toExternal().Validate(types.ChainID(ch)); err != nil {
+			if err := ev.toExternal().Validate(types.ChainID(ch)); err != nil && !prefixIds {
 				run.nextNonce[ch]--
 				stats["event_rejected_by_validate"]++
 				continue
@@ -315,6 +332,9 @@ func runHubCase(seed uint64, nOps int, hostile bool, stats HubStats) (V, V) {
 			ch := allChains[rng.Intn(3)]
 			if rng.Chance(1, 25) {
 				ch = "hub"
+			}
+			if directed && rng.Chance(4, 5) {
+				ch = "ethereum"
 			}
 			denom := "hub"
 			if len(tokens) > 0 {
@@ -380,12 +400,18 @@ func runHubCase(seed uint64, nOps int, hostile bool, stats HubStats) (V, V) {
 			do(&HubOp{Kind: 3, Sender: userAddr(0).String(), Chain: ch, Denom: denom})
 		case c < 94: // batch executed
 			ch := extChains[rng.Intn(3)]
+			if directed && rng.Chance(4, 5) {
+				ch = "ethereum"
+			}
 			bs := batchesOf(ch)
 			coin := ""
 			bn := uint64(1 + rng.Intn(4))
 			if len(bs) > 0 && rng.Chance(9, 10) {
 				sort.Slice(bs, func(i, j int) bool { return bs[i].BatchNonce < bs[j].BatchNonce })
 				b := bs[rng.Intn(len(bs))]
+				if directed && rng.Chance(2, 3) {
+					b = bs[len(bs)-1]
+				}
 				coin, bn = b.ExternalTokenId, b.BatchNonce
 			} else {
 				ts := tokensOn(ch)
@@ -401,7 +427,7 @@ func runHubCase(seed uint64, nOps int, hostile bool, stats HubStats) (V, V) {
 			}
 			ev := &HubEvent{Kind: 3, Nonce: n, Coin: coin, BatchNonce: bn, Height: h, TxHash: fmt.Sprintf("0xexe%s%d", ch, n),
 				FeePaid: feePaid, FeePayer: ethAddrOf(0x90, rng.Intn(2))}
-			if err := ev.toExternal().Validate(types.ChainID(ch)); err != nil {
+			if err := ev.toExternal().Validate(types.ChainID(ch)); err != nil && !prefixIds {
 				run.nextNonce[ch]--
 				stats["event_rejected_by_validate"]++
 				continue
@@ -412,7 +438,7 @@ func runHubCase(seed uint64, nOps int, hostile bool, stats HubStats) (V, V) {
 			n, h := nextEvent(ch)
 			do(&HubOp{Kind: 4, Chain: ch, Ev: &HubEvent{Kind: 4, Nonce: n, Height: h}})
 		default: // environment change: holders/prices, rarely a delisting
-			if rng.Chance(1, 4) && len(tokens) > 1 {
+			if gov && rng.Chance(1, 4) && len(tokens) > 1 {
 				i := rng.Intn(len(tokens))
 				tokens = append(append([]*types.TokenInfo{}, tokens[:i]...), tokens[i+1:]...)
 				stats["delisted"]++
